@@ -174,6 +174,8 @@ class FakeService:
         self.failures = 0
         self.hs_fail = 0            # budget of failed WebSocket negotiations on RE-connections
         self.hs_failed = 0
+        self.hs_slow = False        # the TCP connection and the WebSocket negotiation are separate events
+        self._finishing = None      # list of stop waiters while a connection-lost notification runs
         self.name = "c%d" % len(world.services)
         world.services.append(self)
 
@@ -193,6 +195,12 @@ class FakeService:
                 d.errback(failure.Failure(defer.CancelledError()))
         self.when = []
         c = self.conn
+        if self._finishing is not None:
+            # ClientService is "disconnecting": the protocol's connectionLost is running; stop waiters
+            # fire once it returns, in the order they were registered
+            d = defer.Deferred()
+            self._finishing.append(d)
+            return d
         if c is None or not c.alive:
             return defer.succeed(None)
         c.stopping = True
@@ -509,6 +517,7 @@ class SimNetwork:
         self._seq = 0
         self.names = {}      # hostname -> fake ip handed out by the resolver
         self.silent_nodes = set()   # nodes whose outgoing TCP bytes are black-holed (links stay up)
+        self.slow_ports = set()     # connects to these ports stay in flight (SYN unanswered) while listed
 
     def next_seq(self):
         self._seq += 1
@@ -650,10 +659,17 @@ class World:
             c = svc.conn
             if c is None or not c.alive:
                 if svc.started:
-                    ev.append(("mb.connect", svc))
+                    if svc.hs_slow != "only":
+                        ev.append(("mb.connect", svc))
+                    if svc.hs_slow:
+                        ev.append(("mb.tcp", svc))
                     if mf and svc.hs_fail > 0 and svc.nconn >= 1:
                         # TCP connects but the WebSocket negotiation fails: onClose without onOpen
                         ev.append(("mb.hsfail", svc))
+                continue
+            if getattr(c, "half_open", False):
+                # TCP is up, the WebSocket negotiation has not finished
+                ev.append(("mb.stopfin", c) if c.stopping else ("mb.open", c))
                 continue
             if c.c2s:
                 ev.append(("mb.c2s", c))
@@ -664,6 +680,8 @@ class World:
             if mf and not c.stopping:
                 ev.append(("mb.drop", c))
         for cn in list(self.net.pending):
+            if cn.port in self.net.slow_ports:
+                continue
             ev.append(("net.connect", cn))
         for l in list(self.net.links):
             for t in (l.a, l.b):
@@ -714,6 +732,38 @@ class World:
             for d, _ in waiters:
                 if not d.called:
                     d.callback(None)
+        elif k == "mb.tcp":
+            svc = e[1]
+            svc.nconn += 1
+            c = MailConn(self, svc, svc.nconn)
+            c.half_open = True
+            svc.conn = c
+            waiters, svc.when = svc.when, []
+            for d, _ in waiters:          # ClientService has a protocol: whenConnected fires
+                if not d.called:
+                    d.callback(None)
+        elif k == "mb.open":
+            c = e[1]
+            c.half_open = False
+            c.srv.onOpen()
+            self._rx_guard(c, lambda: c.cli.onOpen())
+        elif k == "mb.stopfin" and getattr(e[1], "half_open", False):
+            # stopService() while the negotiation was in flight: Autobahn reports onClose without onOpen,
+            # then ClientService finishes stopping
+            c = e[1]
+            svc = c.svc
+            c.alive = False
+            svc.conn = None
+            svc._finishing = []
+            try:
+                c.cli.onClose(False, 1006, "connection was closed uncleanly (sim: during negotiation)")
+            except Exception:
+                log.err(None, "exception in onClose")
+            later, svc._finishing = svc._finishing, None
+            d, svc.stop_d = svc.stop_d, None
+            for x in [d] + later:
+                if x is not None and not x.called:
+                    x.callback(None)
         elif k == "mb.hsfail":
             svc = e[1]
             svc.hs_fail -= 1
